@@ -25,6 +25,7 @@ META = {
 META['explanation'] += ' ' + 'R9: structures of keys and certificates are composed as held (order of items, no substituted constants). R10: KEXINIT positions are parsed into the attributes the composer writes there.'
 
 META['explanation'] += ' ' + 'R9 also: a length prefix is derived from the composed body.'
+META['explanation'] += ' ' + 'R12: no de-duplication on the way to HASSH / fingerprints (shared with C10.R16).'
 HERE = os.path.dirname(os.path.dirname(os.path.abspath(__file__)))
 
 
